@@ -8,8 +8,8 @@ from checks.common import swarm
 
 ID = 'C01'
 LEVEL = 'exploration'
-NEEDS = ('threads',)  # + 'proc' once sim/osproc.py is in place
-PROC_READY = False
+NEEDS = ('threads', 'proc')
+PROC_READY = True
 QUICK = dict(runs=9000, wall=80)
 THOROUGH = dict(runs=500000, wall=1200)
 RULE = ('scenario = n<=24 unique inputs, per-element virtual service time in {0,1,2,5,20ms} (so every completion order is reachable), '
